@@ -279,6 +279,9 @@ def sx_str(*args, **kw):
         return sstr.mk(sstr.render_int(x))
     if isinstance(x, SReal):
         return cur().format_hook(x, 'str')
+    if len(args) == 1 and not kw and type(x).__module__.startswith('propka'):
+        # instrumented __str__ may build a symbolic string
+        return type(x).__str__(x)
     return _b.str(*args, **kw)
 
 
